@@ -20,7 +20,8 @@ from onnx import helper as oh
 from onnx import numpy_helper as nh
 
 OPSETS = [11, 13, 18]
-KINDS = ["unsqueeze", "squeeze", "reducesum", "reducemax", "split", "softmax", "add_f", "add_i", "cast", "clip", "dropout", "shape"]
+KINDS = ["unsqueeze", "squeeze", "reducesum", "reducemax", "split", "softmax", "add_f", "add_i", "cast", "clip", "dropout", "shape",
+         "fold_then_fail"]
 
 
 def _model(kind: str, opset: int) -> onnx.ModelProto:
@@ -75,6 +76,12 @@ def _model(kind: str, opset: int) -> onnx.ModelProto:
         nodes.append(N("Shape", ["x"], ["s"]))
         nodes.append(N("Cast", ["s"], ["k"], to=TP.FLOAT))
         out_shape = [1, 2, 3]
+    elif kind == "fold_then_fail":
+        # something is folded (Add of two initializers), then the evaluation of the next node raises (Cast to an element type that
+        # does not exist): a transformation that fails half-way
+        nodes.append(N("Add", ["c", "c"], ["k0"]))
+        nodes.append(N("Cast", ["k0"], ["k"], to=999))
+        out_shape = [1, 2, 3]
     if kind != "dropout":
         nodes.append(N("Mul", ["x", "k"], ["y"]))
     g = oh.make_graph(nodes, f"{kind}_{opset}", [oh.make_tensor_value_info("x", TP.FLOAT, out_shape)],
@@ -84,7 +91,7 @@ def _model(kind: str, opset: int) -> onnx.ModelProto:
 
 TABLE = [(k, o) for o in OPSETS for k in KINDS]
 MODELS = [_model(k, o).SerializeToString() for k, o in TABLE]
-TRANSFORMS = ["optimize", "convert18", "proto2python", "script", "convert21"]
+TRANSFORMS = ["optimize", "convert18", "proto2python", "script", "convert21", "reused_fold_pass"]
 
 
 def _conv_models():
@@ -174,7 +181,20 @@ def transform(name: str, mb) -> bytes:
     if name == "proto2python":
         import onnxscript
         return onnxscript.proto2python(m).encode()
+    if name == "reused_fold_pass":
+        # ONE pass object for the whole process (pass objects are reusable): its result for a model must not depend on the models
+        # it handled before, failed ones included
+        import onnx_ir as ir_
+        global _FOLD_PASS
+        if _FOLD_PASS is None:
+            from onnxscript.optimizer import _constant_folding as cf_
+            _FOLD_PASS = cf_.FoldConstantsPass(shape_inference=False, input_size_limit=8192, output_size_limit=8192)
+        res = _FOLD_PASS(ir_.from_proto(m))
+        return (b"modified=%d;" % int(bool(res.modified))) + ir_.to_proto(res.model).SerializeToString(deterministic=True)
     raise ValueError(name)
+
+
+_FOLD_PASS = None
 
 
 def _safe(name, mb):
@@ -315,6 +335,7 @@ def _ob(ti, hlen, first_opset=None, tiers=("quick", "thorough")):
                       "convert18": ["onnxscript.version_converter:convert_version"],
                       "proto2python": ["onnxscript.backend.onnx_export:export2python"],
                       "script": ["onnxscript._internal.converter:Converter", "onnxscript._internal.main:script"],
+                      "reused_fold_pass": ["onnxscript.optimizer._constant_folding:FoldConstantsPass.call"],
                       "convert21": ["onnxscript.version_converter:convert_version", "onnxscript.version_converter._version_converter:_VersionConverter"]}[TRANSFORMS[ti]],
         "bounds": (f"history of {hlen} script(s) and a target from a table of {n} script sources sharing a vocabulary of names (constants in "
                    "some, tensors in others), all symbolic; fresh-process baselines") if TRANSFORMS[ti] == "script" else
@@ -328,6 +349,7 @@ def _ob(ti, hlen, first_opset=None, tiers=("quick", "thorough")):
 
 OBLIGATIONS = (
     [_ob(0, 1, fo) for fo in range(len(OPSETS))] + [_ob(1, 1), _ob(2, 1), _ob(3, 1), _ob(3, 2), _ob(4, 1), _ob(4, 2)]
+    + [_ob(5, 1, fo) for fo in range(len(OPSETS))]
     + [_ob(0, 2, fo, tiers=("thorough",)) for fo in range(len(OPSETS))]
 )
 
